@@ -5,6 +5,9 @@ ALL = ["C%02d" % i for i in range(1, 21)]
 
 # id -> (level text, level note, technique)
 CLAIMED = {
+ "C06": ("Decides structural necessary conditions of deterministic execution over the ~1000 repository functions reachable from block execution in the VTA call graph: (N1) every map range there is order-free by a closed idiom list (no early non-error exit, no log emission, appended slices sorted or only logged before use), reviewed exceptions tabled; (N2) chain head, wall clock, random sources and environment are read only to be logged (forward slice to logging sinks); (N3) builder and importer call the same ApplyTransaction/EndBlock, isSeal only selects slashing/replaySlashing, ValidateState compares all commitments; (N4) goroutines under execution are tabled. It does not decide equality of two runs as values.",
+         "Trusted: go/types + go/ssa + callgraph/vta of x/tools v0.29.0 (over-approximating calls between repository functions); logging is a sink.",
+         "whole-program reachability (VTA call graph) + map-iteration order-sensitivity classifier + forward taint slices to logging sinks"),
  "C12": ("Extracts the decision table of core.VerifyYouVersionState by enumerating every feasible path of its SSA form (phis resolved per path) and decides on the accepting paths: (W1) each of the five upgrade fields of the new header is pinned by an equality or two-sided bound in every case (switch, failed, on-going, new, none); (W2) an approval is added only with round < NextVoteBefore; (W3) builder and verifier agree on the field set, InsertChain verifies before importing, the version in force is read protocolRoundBack rounds back. It does not decide chain-level invariants as reachability, nor builder-accepted as values.",
          "Trusted: go/types + go/ssa; the path enumeration is exhaustive for this loop-free function (budget 20000 paths, exceeded = undecided).",
          "exhaustive path enumeration of a loop-free verifier (decision-table extraction) + atom coverage rules"),
